@@ -1,9 +1,10 @@
-\* objects present when the informers of a new namespace are created never produce Added (F5, known finding)
+\* pinned commit: objects present when the informers of a new namespace are created never produce Added (F5) - TLC must find it
 SPECIFICATION Spec
 CONSTANTS
   NewNs = {"n1", "n2"}
   Objs = {"a", "b"}
   FixF4 = TRUE
+  FixF5 = FALSE
   MaxCreates = 3
 INVARIANTS AllDelivered
 CHECK_DEADLOCK FALSE
